@@ -131,6 +131,21 @@ func Run(dir, tier string, seed int64) error {
 						for _, h := range headers {
 							spec.Header[http.CanonicalHeaderKey(h)] = fw
 						}
+						// headers that are NOT configured must be ignored, whatever they say: the standard Forwarded header when
+						// custom ones are configured, any forwarding header for a Host-derived issuer
+						unconfigured := map[string]bool{}
+						for _, name := range []string{"Forwarded", "X-Forwarded-Host", "X-Original-Forwarded"} {
+							cfgd := false
+							for _, h := range headers {
+								if http.CanonicalHeaderKey(h) == name {
+									cfgd = true
+								}
+							}
+							if !cfgd && (len(spec.Header)+len(host))%2 == 0 {
+								spec.Header[name] = []string{"host=unconfigured.example"}
+								unconfigured[name] = true
+							}
+						}
 						if len(headers) > 1 { // first configured header unparsable, second fine
 							spec.Header[http.CanonicalHeaderKey(headers[0])] = []string{"garbage ;;"}
 						}
@@ -187,7 +202,7 @@ func Run(dir, tier string, seed int64) error {
 			}
 		}
 	}
-	run.Res.Rule = "static: 56 hand-picked issuer strings (scheme case, userinfo, ports, IPv6 literals, empty hosts, opaque and relative URLs, control characters, empty / non-empty query and fragment, percent escapes) plus random concatenations of URL pieces, x insecure on/off, through ValidateIssuer and NewProvider(StaticIssuer); url.Parse supplies the components to the model; the oracle checks the accepted strings themselves. derived: providers built with IssuerFromHost / IssuerFromForwardedOrHost (default and custom header lists) x 5 paths x insecure x 4 Host values x 12 Forwarded header shapes (multiple headers, multiple elements, quoted hosts, malformed syntax); the entityID served at /metadata is compared with the model formula (header syntax parsed by httpforwarded as oracle) and, for syntactically simple header values, with an independent reference (first host parameter over headers, lines and elements in order, else Host). distinct = input class."
+	run.Res.Rule = "static: 56 hand-picked issuer strings (scheme case, userinfo, ports, IPv6 literals, empty hosts, opaque and relative URLs, control characters, empty / non-empty query and fragment, percent escapes) plus random concatenations of URL pieces, x insecure on/off, through ValidateIssuer and NewProvider(StaticIssuer); url.Parse supplies the components to the model; the oracle checks the accepted strings themselves. derived: providers built with IssuerFromHost / IssuerFromForwardedOrHost (default and custom header lists) x 5 paths x insecure x 4 Host values x 12 Forwarded header shapes (multiple headers, multiple elements, quoted hosts, malformed syntax), with forwarding headers that are not configured also present (they must be ignored); the entityID served at /metadata is compared with the model formula (header syntax parsed by httpforwarded as oracle) and, for syntactically simple header values, with an independent reference (first host parameter over headers, lines and elements in order, else Host). distinct = input class."
 	return run.Finish()
 }
 
